@@ -3,6 +3,8 @@ grammar, plus near-pair mutation and ladders (strictly increasing lists) used by
 the vers-algebra correspondence.  Every choice comes from the random.Random given."""
 import itertools
 
+from harness import common
+
 NUM_SMALL = ["0", "1", "2", "3", "9", "10", "11", "20", "100"]
 
 
@@ -322,7 +324,7 @@ def mined_words():
     import glob
 
     words = set()
-    for path in sorted(glob.glob("/repo/src/univers/**/*.py", recursive=True)):
+    for path in sorted(glob.glob(common.REPO_SRC + "/univers/**/*.py", recursive=True)):
         words |= _file_words(path)
     _MINED["words"] = sorted(words)
     return _MINED["words"]
@@ -374,7 +376,7 @@ def class_words(cls):
                 continue
             mod = obj if inspect.ismodule(obj) else sys.modules.get(getattr(obj, "__module__", None) or "")
             f = getattr(mod, "__file__", None) if mod else None
-            if f and f.startswith("/repo/src/univers/") and not f.endswith("/versions.py"):
+            if f and f.startswith(common.REPO_SRC + "/univers/") and not f.endswith("/versions.py"):
                 words |= _file_words(f)
     _MINED[key] = sorted(words)
     return _MINED[key]
